@@ -402,9 +402,15 @@ def check(item, case, rec):
         items = [it]
     elif item == "PointLoad":
         fc = fem.FieldsMixed(region, n=2) if (case["mask"] and spec["kind"] in ("hexahedron", "quad")) else fem.FieldContainer([fem.Field(region, dim=dim)])
+        ring = dim == 2 and len(fc.fields) == 1 and case["useed"] % 2 == 1
+        if ring:
+            # ring loads on an axisymmetric field (axisymmetric=True): scaled by 2 pi R of the UNDEFORMED point positions - a dead load
+            # whose tangent is zero
+            fc = fem.FieldContainer([fem.FieldAxisymmetric(region, dim=2)])
+            rec.label("pointload:ring-loads")
         set_state(fc, X, case, dim)
         pts = np.unique(rng.choice(len(X), size=min(3, len(X)), replace=False))
-        it = fem.PointLoad(fc, points=pts, values=rng.uniform(-1, 1, (len(pts), dim)))
+        it = fem.PointLoad(fc, points=pts, values=rng.uniform(-1, 1, (len(pts), dim)), axisymmetric=ring)
         symmetric = True
         items = [it]
     elif item in ("BodyForce", "Gravity"):
